@@ -7,6 +7,10 @@ import re
 import shutil
 
 SUM = "/tmp/seedlogs/summary.txt"
+# round 2: the author's summary was read before the first evaluation and the check was widened beforehand
+# (so "first run" would overstate what the check as it stood could do)
+PRE = set("C03-6 C06-5 C07-5 C08-4 C08-5 C08-6 C09-4 C09-5 C11-4 C11-5 C11-6 C12-5 C13-5 C14-4 C14-5 C15-4 C15-5 C15-6 "
+          "C16-5 C16-6 C17-6 C18-4 C19-6 C20-4 C20-5 C20-6".split())
 rows = {}
 for line in open(SUM):
     m = re.match(r"^(C\d\d)_(\d)([a-z]?)\s+demo_clean=(\S+) demo_patched=(\S+) \| (.*)$", line.strip())
@@ -48,6 +52,7 @@ for (prop, k), e in sorted(rows.items()):
         "what_was_run": "tools/try_seed.sh: scratch worktree of /repo HEAD, git apply patch.diff, demo.py, then "
                         "XGI_REPO=<worktree> ./check <property> (quick tier)",
         "runs": e["runs"],
+        "check_widened_before_first_evaluation": f"{prop}-{k}" in PRE,
         "detected": any(v["rc"] == 1 and v["violation_classes"] > 0 for v in final.values()),
         "detected_by": sorted(p for p, v in final.items() if v["rc"] == 1),
     }
